@@ -61,7 +61,7 @@ func lookupNode[T any](urlTree *URLTree[T], url string) lookupNodeResult[T] {
 		// A wildcard written as a path segment stands for path segments only: it is
 		// no fallback while host labels are still consumed (a.com/* vs a.com.evil.net)
 		if currentNode.WildcardChild != nil &&
-			currentNode.WildcardChild.IsPartOfHost == urlPart.IsPartOfHost {
+			(currentNode.WildcardChild.IsPartOfHost || !urlPart.IsPartOfHost) {
 			foundWildcardNode = currentNode.WildcardChild
 			wildcardURLPath = wildcardPath(urlPath, foundWildcardNode)
 			wildcardParams = maps.Clone(params)
